@@ -49,7 +49,10 @@ def build_session(rng, tmp, nops, metrics):
     Xv[:2] += 2.0
     Yv = np.array([0, 1, 0, 1])
     Yv[0] = 1
+    # a lattice dataset (many tied distances, several minimum spanning trees): equal data must still give identical forests
+    Xg = r.integers(1, 4, size=(n, 2)).astype(float)
     iX, iY, iX0, iXF, iXu, iXv, iYv = (s.add(a, nm) for a, nm in ((X, "X"), (Y, "Y"), (X0, "X0"), (XF, "XF"), (Xu, "Xu"), (Xv, "Xv"), (Yv, "Yv")))
+    iXg = s.add(Xg, "Xgrid")
     s.seal()
     mats = [iX, iX0, iXF, iXv]
     group = 0
@@ -92,7 +95,7 @@ def build_session(rng, tmp, nops, metrics):
             # refit twins on the pooled arrays themselves: equal data => identical forest and predictions
             kind = rng.choice(["sup", "semi", "knn", "unsup"])
             met = rng.choice(["euclidean", "log_squared_euclidean", "manhattan", "chi_squared", "canberra", "squared_chord", "bray_curtis", "jensen_shannon"])
-            Xi = rng.choice([iX, iX0, iXF])
+            Xi = rng.choice([iX, iX0, iXF, iXg, iXg])
             group += 1
             cfg = {"distance": met}
             if kind == "knn":
